@@ -316,8 +316,10 @@ fn plans_c05h(thorough: bool, full: &[Cfg], c3: &[Cfg], heavy: bool) -> Vec<Plan
     ];
     if heavy || thorough {
         p.push(plan("KP-5", variants_kp(), true, c3, m, Some(if thorough { 413_343 } else { 20_000 })));
-        p.push(plan("KPB-6", variants_kp(), true, c3, m, None));
-        p.push(plan("KPB-7", variants_kp(), true, c3, m, Some(if thorough { 114_688 } else { 20_000 })));
+        // (quick tier: KPB-7 used to take 41 of the 50 seconds and left nothing for KPB-6 and TM-0c; what these two families
+        // were added for -- the seeded change of C19 -- is shown by KPH-0 below, so the quick tier visits a part of them only)
+        p.push(plan("KPB-6", variants_kp(), true, c3, m, if thorough { None } else { Some(8000) }));
+        p.push(plan("KPB-7", variants_kp(), true, c3, m, Some(if thorough { 114_688 } else { 4000 })));
         // hand-written knapsacks with 7 (10, 11) items and all their neighbours at distance 1: the same (state, depth) sits in the
         // fringe several times with different bounds, and a cut-off index exists between two pops whose order matters
         // (seeded changes C19 and C19r5: an entry of the duplicate-free fringe lowered in place without repairing the heap)
